@@ -669,3 +669,34 @@ Theorem C15_dt_addrow_invalidates_bounds_not_references :
 Proof. exact TableProofs.dt_addrow_invalidates_bounds_not_references. Qed.
 Print Assumptions C15_dt_addrow_invalidates_bounds_not_references.
 
+(* ---------- review round: exports ---------- *)
+(* ArrayShifter::InsertNogrow index guard (generated) *)
+Theorem C15_gen_insert_nogrow_index_guard_exact :
+  forall cnt index count, Gen_ArrayShifter.InsertNogrow_guard cnt index count = if (index <=? cnt)%Z then Ok cnt else Exn.
+Proof. exact GuardProofs.insert_index_guard_exact. Qed.
+Print Assumptions C15_gen_insert_nogrow_index_guard_exact.
+(* the generated tables the vm_compute theorems range over are not trivially small *)
+Theorem C15_path_facts_at_least_300 : Nat.leb 300 (List.length path_facts) = true.
+Proof. exact TableCheck.path_facts_nonempty. Qed.
+Print Assumptions C15_path_facts_at_least_300.
+Theorem C15_mutator_rows_at_least_40 : Nat.leb 40 (List.length TableCheck.mutator_rows) = true.
+Proof. exact TableCheck.mutator_rows_nonempty. Qed.
+Print Assumptions C15_mutator_rows_at_least_40.
+(* generated fact about the hand-set prefix cuts: nothing before a cut writes, only size / position queries and the keeper check are called *)
+Theorem C15_guard_prefixes_write_free :
+  forallb TableCheck.prefix_row_ok guard_prefix_facts = true /\ Nat.leb 18 (List.length guard_prefix_facts) = true.
+Proof. exact TableCheck.guard_prefixes_write_free. Qed.
+Print Assumptions C15_guard_prefixes_write_free.
+(* set/map hand model: any change of the contents of a container comes with a change of its version (every reachable state, every
+   history without assignments; the container is identified by its version cell `cr`) *)
+Theorem C15_contents_change_bumps_version :
+  forall k s ops cr v, reachable k s -> Forall (fun o => is_assign o = false) ops -> ver_of_crew s cr = Some v ->
+    ver_of_crew (run k s ops) cr = Some v -> keys (owner (run k s ops) cr) = keys (owner s cr).
+Proof. exact VersionProofs.contents_change_bumps_version. Qed.
+Print Assumptions C15_contents_change_bumps_version.
+(* `Inv` (hypothesis of C15_keeper_check_cont_is_model and of the three assignment theorems) holds in every reachable state *)
+Theorem C15_inv_established :
+  Inv init /\ (forall k s o, Inv s -> Inv (fst (step k s o))) /\ (forall k s, reachable k s -> Inv s).
+Proof. exact VersionProofs.inv_established. Qed.
+Print Assumptions C15_inv_established.
+
